@@ -91,11 +91,61 @@ func init() {
 					sp.PreStore[vb] = [4]uint64{0xabc000 + uint64(vb), 0, 0, 0}
 				}
 				sp.Steps = []Step{{Op: "sleep", Ms: 150}, {Op: "commit"}}
+				if i%3 == 2 {
+					// ... or written under a narrower one: the file knows only the lower part of the member's chunk (the group
+					// has shrunk since); still every vBucket of the chunk is requested, once
+					base, rem := n/t, n%t
+					lo := (k-1)*base + min(k-1, rem)
+					size := base
+					if k-1 < rem {
+						size++
+					}
+					keep := lo + 1 + rng.Intn(max(1, size-1))
+					for vb := 0; vb < n; vb++ {
+						if vb < lo || vb >= keep {
+							delete(sp.PreStore, vb)
+						}
+					}
+					sp.Backend = "file"
+					sp.FileSparse = true
+					sp.NoteReqs = true
+				}
 				out = append(out, drv.Scenario{Kind: "wire", Seed: seed, Params: mustJSON(sp), TimeoutS: 90})
 			}
 			return out
 		},
 		Run: runC09,
+		OnDeath: func(sc drv.Scenario, out drv.ChildOutcome) drv.Result {
+			// a wire session that died: what it had requested up to then was reported request by request
+			if sc.Kind != "wire" || !drv.IsLibraryPanic(out.Stderr) {
+				return drv.Result{Verdict: drv.Inconclusive, Detail: "child ended: " + drv.PanicLine(out.Stderr)}
+			}
+			var sp SessSpec
+			_ = json.Unmarshal(sc.Params, &sp)
+			n, k, t := sp.NumVB, sp.StaticMember[0], sp.StaticMember[1]
+			base, rem := n/t, n%t
+			lo := (k-1)*base + min(k-1, rem)
+			size := base
+			if k-1 < rem {
+				size++
+			}
+			seen := map[int]int{}
+			for _, nt := range out.Notes {
+				var vb, c int
+				if _, err := fmt.Sscanf(nt, "streamreq vb=%d n=%d", &vb, &c); err == nil {
+					seen[vb] = c
+				}
+			}
+			for vb, c := range seen {
+				if vb < lo || vb >= lo+size {
+					return drv.Result{Verdict: drv.Violated, Clause: "wire", FindingKey: "C09/wire/foreign-stream", Nontrivial: true, Detail: fmt.Sprintf("member %d/%d of %d vBuckets requested a stream for vb %d outside its chunk [%d,%d) and then died: %s", k, t, n, vb, lo, lo+size, drv.PanicLine(out.Stderr))}
+				}
+				if c > 1 {
+					return drv.Result{Verdict: drv.Violated, Clause: "wire", FindingKey: "C09/wire/duplicate-stream", Nontrivial: true, Detail: fmt.Sprintf("member %d/%d of %d vBuckets requested vb %d %d times in one open (the node refuses the second request) and died: %s", k, t, n, vb, c, drv.PanicLine(out.Stderr))}
+				}
+			}
+			return drv.Result{Verdict: drv.Inconclusive, Detail: "child ended: " + drv.PanicLine(out.Stderr)}
+		},
 	})
 }
 
@@ -157,6 +207,11 @@ func runC09Wire(sc drv.Scenario) drv.Result {
 	for vb, segs := range tr.Segs {
 		if len(segs) > 0 {
 			got[vb] = true
+		}
+	}
+	for vb, segs := range tr.Segs {
+		if len(segs) > 1 {
+			fs = append(fs, Finding{"C09", "wire", "C09/wire/duplicate-stream", fmt.Sprintf("member %d/%d of %d vBuckets requested vb %d %d times in one open", k, t, n, vb, len(segs))})
 		}
 	}
 	for vb := 0; vb < n; vb++ {
